@@ -137,23 +137,22 @@ def c17b(ctx):
     ok = all(unparse(s.value) == 'request_srs' for s in sets)
     ctx.check(ok, 'WMSSource._get_map:srs-code-from-supported', 'query.srs is only replaced by the supported entry', fn)
     gt = ctx.fn(SW + ':WMSSource._get_transformed')
-    defs = Defs(gt.node)
-    ss = [v for v, sel in defs.of('src_srs')]
-    ok = len(ss) == 1 and is_call(ss[0], 'self.supported_srs.best_srs')
+    # closed forms of what is sent upstream: MapQuery(<query bbox transformed into S>, <size>, S, ...) with S = supported_srs.best_srs(query.srs)
+    SRS = 'self.supported_srs.best_srs(query.srs)'
+    sends = [x for x in gt.walk() if is_call(x, 'self.client.retrieve', 'self._get_sub_query')]
+    forms = [gt.canon.expr(x.args[0]) for x in sends if x.args]
+    okq = bool(forms) and all(is_call(f, 'MapQuery') and len(f.args) >= 3 for f in forms)
+    ctx.check(okq, 'WMSSource._get_transformed:sends-src-query', 'what is sent upstream is a newly built MapQuery', gt)
+    ok = okq and all(unparse(f.args[2]).replace(' ', '') == SRS for f in forms)
     ctx.check(ok, 'WMSSource._get_transformed:best-srs', 'the source SRS is supported_srs.best_srs(...)', gt)
-    sq = [v for v, sel in defs.of('src_query')]
-    ok = len(sq) == 1 and is_call(sq[0], 'MapQuery') and unparse(sq[0].args[2]) == 'src_srs' and unparse(sq[0].args[0]) == 'src_bbox'
-    ctx.check(ok, 'WMSSource._get_transformed:query-in-src-srs', 'the upstream query is built with src_bbox in src_srs', gt)
-    rets = [x for x in gt.walk() if is_call(x, 'self.client.retrieve', 'self._get_sub_query')]
-    ok = bool(rets) and all(unparse(x.args[0]) == 'src_query' for x in rets)
-    ctx.check(ok, 'WMSSource._get_transformed:sends-src-query', 'what is sent upstream is src_query', gt)
-    sb = [v for v, sel in defs.of('src_bbox')]
-    ok = len(sb) == 1 and is_call(sb[0], 'dst_srs.transform_bbox_to') and unparse(sb[0].args[0]) == 'src_srs'
-    ctx.check(ok, 'WMSSource._get_transformed:bbox-transformed', 'src_bbox is the query bbox transformed into src_srs', gt)
+    ok = okq and all(unparse(f.args[2]).replace(' ', '') == SRS and is_call(f.args[0], 'transform_bbox_to') for f in forms)
+    ctx.check(ok, 'WMSSource._get_transformed:query-in-src-srs', 'the upstream query is built with the transformed bbox in the source SRS', gt)
+    ok = okq and all(unparse(f.args[0]).replace(' ', '') == 'query.srs.transform_bbox_to(%s,query.bbox)' % SRS for f in forms)
+    ctx.check(ok, 'WMSSource._get_transformed:bbox-transformed', 'the upstream bbox is the query bbox transformed from the query SRS into the source SRS', gt)
     gs = ctx.fn(SW + ':WMSSource._get_sub_query')
-    defs = Defs(gs.node)
-    sq = [v for v, sel in defs.of('src_query')]
-    ok = len(sq) == 1 and is_call(sq[0], 'MapQuery') and unparse(sq[0].args[2]) == 'query.srs'
+    sends = [x for x in gs.walk() if is_call(x, 'self.client.retrieve')]
+    forms = [gs.canon.expr(x.args[0]) for x in sends if x.args]
+    ok = bool(forms) and all(is_call(f, 'MapQuery') and len(f.args) >= 3 and unparse(f.args[2]) == 'query.srs' for f in forms)
     ctx.check(ok, 'WMSSource._get_sub_query:inherits-srs', 'the sub-query inherits the (already negotiated) SRS of its parent', gs)
     ps = ctx.fn('mapproxy/srs.py:PreferredSrcSRS.preferred_src')
     g = ps.cfg
@@ -221,8 +220,8 @@ def c17d(ctx):
               fail='the sub-query is not limited to the source extent in the query SRS')
     tgt = enclosing(bp[0], ast.Assign).targets[0] if bp and enclosing(bp[0], ast.Assign) is not None else None
     names = [unparse(e) for e in tgt.elts] if isinstance(tgt, ast.Tuple) and len(tgt.elts) == 3 else None
-    sq = [v for v, sel in defs.of('src_query')]
-    ok = names is not None and len(sq) == 1 and unparse(sq[0].args[0]) == names[2] and unparse(sq[0].args[1]) == names[0]
+    sq = [x for x in gs.walk() if is_call(x, 'MapQuery')]
+    ok = names is not None and len(sq) == 1 and len(sq[0].args) >= 2 and unparse(sq[0].args[0]) == names[2] and unparse(sq[0].args[1]) == names[0]
     ctx.check(ok, 'WMSSource._get_sub_query:query-uses-sub-box', 'the upstream query uses the limited bbox and size', gs)
     fetch = g.find(lambda x: is_call(x, 'self.client.retrieve'))
     raises = [r for r in g.find_stmts(lambda s: isinstance(s, ast.Raise)) if _raises_blank(g, r)]
